@@ -272,9 +272,47 @@ def map_doc(r, depth=3, sc=scalar):
     return d
 
 
+def share_subobject(r, d):
+    """Put one of the document's own containers at a SECOND position as well (the very same list / dict object, as a
+    YAML anchor + alias or a shared `defaults` mapping gives): still a plain, acyclic dict / list document."""
+    conts = []
+
+    def rec(n, depth):
+        for k, c in (n.items() if isinstance(n, dict) else enumerate(n)):
+            if isinstance(c, (list, dict)):
+                conts.append((c, depth))
+                if depth < 3:
+                    rec(c, depth + 1)
+
+    rec(d, 0)
+    if not conts:
+        return d
+    shared, _ = r.choice(conts)
+    # hosts: the top level or another container that is not inside `shared` (no cycles)
+    inside = set()
+
+    def mark(n):
+        inside.add(id(n))
+        for c in (n.values() if isinstance(n, dict) else n):
+            if isinstance(c, (list, dict)):
+                mark(c)
+
+    mark(shared)
+    hosts = [d] + [c for c, _ in conts if id(c) not in inside]
+    host = r.choice(hosts)
+    if isinstance(host, list):
+        host.insert(r.below(len(host) + 1), shared)
+    else:
+        host[r.choice(["shared", "b", "z", 1])] = shared
+    return d
+
+
 def doc(r, depth=3, sc=scalar):
     """A non-empty list or mapping, heterogeneous on purpose."""
-    return map_doc(r, depth, sc) if r.coin() else list_doc(r, depth, sc)
+    d = map_doc(r, depth, sc) if r.coin() else list_doc(r, depth, sc)
+    if depth >= 2 and r.pct() < 7:
+        d = share_subobject(r, d)
+    return d
 
 
 # hostile scalars (C07, C13, C15): castable / uncastable strings, zeros, %-strings
@@ -447,7 +485,8 @@ def leaf_args(r, kind, pre, name, mode="any", jsonable=False):
     if name == "items_contain":
         kw = {}
         for _ in range(r.between(1, 2)):
-            kw[r.choice(["a", "b", "abc", "c", "x y", "1", ""])] = None if r.pct() < 12 else anyv() if (mode == "any" or jsonable) else (sc() if r.coin() else value(r, 1))
+            # (incl. names that are parameter names somewhere inside the library: every keyword names an expected item)
+            kw[r.choice(["a", "b", "abc", "c", "x y", "1", ""] if r.pct() >= 12 else ["trial_dict", "value", "datum", "kwargs", "args", "shared_data", "key", "keys", "N", "data"])] = None if r.pct() < 12 else anyv() if (mode == "any" or jsonable) else (sc() if r.coin() else value(r, 1))
         return (), kw
     raise AssertionError(name)
 
